@@ -4,6 +4,9 @@ package testfuncs
 
 import (
 	"fmt"
+	"go/scanner"
+	"go/token"
+	"regexp"
 	"sort"
 	"strconv"
 	"strings"
@@ -214,4 +217,62 @@ func Copies() string {
 	pp := &ps[1]
 	pp.N = 7
 	return a.String() + b.String() + c.String() + d.String() + ps[0].String() + ps[1].String() + q.String()
+}
+
+type counters struct {
+	next, other int
+	name        string
+}
+
+func intern(seen map[string]int, next *int, k string) int {
+	if v, ok := seen[k]; ok {
+		return v
+	}
+	id := *next
+	*next++
+	seen[k] = id
+	return id
+}
+
+// Pointers exercises pointers to fields and to local variables of basic type.
+func Pointers() string {
+	c := &counters{next: 1}
+	seen := map[string]int{}
+	a := intern(seen, &c.next, "a")
+	b := intern(seen, &c.next, "b")
+	a2 := intern(seen, &c.next, "a")
+	local := 10
+	d := intern(seen, &local, "d")
+	p := &c.other
+	*p = 5
+	*p += 2
+	return strconv.Itoa(a) + strconv.Itoa(b) + strconv.Itoa(a2) + strconv.Itoa(d) + ":" + strconv.Itoa(c.next) + ":" + strconv.Itoa(local) + ":" + strconv.Itoa(c.other)
+}
+
+var wordRe = regexp.MustCompile(`^(ctx|err|v\d+)$`)
+
+// Library exercises the library values the evaluator drives by reflection: a scanner over a file set, a regexp.
+func Library(src string) string {
+	var (
+		s    scanner.Scanner
+		fset = token.NewFileSet()
+		prev = token.ILLEGAL
+		out  []string
+	)
+	s.Init(fset.AddFile("", fset.Base(), len(src)), []byte(src), nil, 0)
+	for {
+		_, tok, lit := s.Scan()
+		if tok == token.EOF {
+			break
+		}
+		if tok == token.IDENT && prev != token.PERIOD {
+			mark := ""
+			if wordRe.MatchString(lit) {
+				mark = "!"
+			}
+			out = append(out, lit+mark)
+		}
+		prev = tok
+	}
+	return strings.Join(out, ",")
 }
